@@ -26,6 +26,9 @@ def instances(tier):
         I("size_w13_crash", trig="size", base=1, count=3, limit=1, sizes=(1, 2), maxrec=5, crash=1, pre="PreNone"),
         # .gz pattern: the final step writes the archive; a name that cannot be written (a link to /dev/full) sits at the
         # newest index - the compress fails, the active file stays, and once the name is freed the rotation goes through
+        # the directory of the archives is a symbolic link whose target goes away and comes back
+        I("size_nodir", trig="size", count=2, limit=2, sizes=(1, 3), maxrec=4, obst=1, nodir=True, pre="PreNone"),
+        I("pre_nodir_t", trig="pre", append=False, count=2, sizes=(1, 2), maxrec=3, obst=1, nodir=True, restart=1, pre="PreNone"),
         I("size_gz_full", trig="size", count=2, limit=2, sizes=(1, 3), maxrec=4, obst=1, gz=True, pre="PreNone"),
         I("pre_gz_full_t", trig="pre", append=False, count=1, sizes=(1, 2), maxrec=3, obst=1, gz=True, pre="PreNone"),
         I("post_gz_full", trig="post", count=2, sizes=(1, 2), maxrec=3, obst=1, restart=1, gz=True, pre="PreNone"),
